@@ -96,8 +96,10 @@ def generate(seeds=(1, 2, 3), tier='quick'):
     # operation-order model: every routed value clause holds EXACTLY in every arithmetic with the IEEE-754 identities
     from .. import fex as F
     nodes, ctxs, specs = {}, {}, []
-    for kind, lk, name, node, ctx in acc:
+    homes = {}
+    for kind, lk, name, node, ctx, hpid, hns in acc:
         nodes[name], ctxs[name] = node, ctx
+        homes[name] = (f'NdeVerif.Gen.{hpid}', hns)
         row = lambda pname, ctor: f'th{lk[pname] % NTH}' if pname in lk else ctor
         if kind in ('ivp_d', 'ivp_n'):
             specs.append((f'{name}_value_exact', name, [('t', row('t_0', 'c_t0'))], row('u_0', 'c_u0'),
@@ -105,7 +107,7 @@ def generate(seeds=(1, 2, 3), tier='quick'):
         else:
             specs.append((f'{name}_left_exact', name, [('t', row('t_0', 'c_t0'))], row('u_0', 'c_u0'), f'BundleDirichletBVP lookup {lk}: u(t0_row) is exactly u0_row'))
             specs.append((f'{name}_right_exact', name, [('t', row('t_1', 'c_t1'))], row('u_1', 'c_u1'), f'BundleDirichletBVP lookup {lk}: u(t1_row) is exactly u1_row'))
-    F.exact_part(g, PID, nodes, ctxs, specs)
+    F.exact_part(g, PID, nodes, ctxs, specs, ex_home=homes)
     return g, stats
 
 
@@ -174,7 +176,7 @@ def _emit_cases(g, cases, stats, seeds, acc=None):
         stats[name] = st
         tree = sw.tree(outs[0])
         if acc is not None:
-            acc.append((kind, lk, name, outs[0].cols[0], sw.ctx))
+            acc.append((kind, lk, name, outs[0].cols[0], sw.ctx, g.pid, g.ns))
         vars_ = sw.ctx.vars
         g.add_def(name, tree, f'traced from /repo: {kind} with bundle_param_lookup={lk}; variables {vars_}')
         rv = list(vars_)
